@@ -23,7 +23,7 @@ SPEC = {
              "reference parameter or more than 15 arguments; distinct = distinct (signature, version)."),
     "assumptions": ["algosdk.atomic_transaction_composer as the ARC-4 client", "algosdk.abi codec", "vlib/avm.py"],
     "min_evaluations": {"quick": 1500, "thorough": 15000},
-    "must_reach": ["call_ok", "over_15_args", "txn_param_calls", "ref_param_calls", "wrong_txn_type_rejected", "contract_ok", "nonvoid_return_ok", "overriding_name_ok",
+    "must_reach": ["call_ok", "refused_registration_survived", "routers_with_assembled_constants", "over_15_args", "txn_param_calls", "ref_param_calls", "wrong_txn_type_rejected", "contract_ok", "nonvoid_return_ok", "overriding_name_ok",
                    "same_sub_twice_ok", "grown_after_first_build"],
     "shard_timeout": {"quick": 2400, "thorough": 14400},
 }
@@ -193,11 +193,21 @@ def check_router(pt, acc, cl, rng, case):
                 name2 = "again%d" % i
                 r.add_method_handler(sub, overriding_name=name2)
                 expected.append((name2, sig, retval))
+            if case.get("refused") and i == 0:
+                # a registration that is refused (the same signature again) and survived by the caller must leave no trace
+                try:
+                    r.add_method_handler(pt.ABIReturnSubroutine(make_method(pt, sig, fname)[0]), overriding_name=name)
+                    acc.violation("duplicate_registration_accepted", case, "a second method with signature %s was accepted" % arc4_signature(name, sig))
+                    return
+                except PT_ERRORS:
+                    acc.counters["refused_registration_survived"] += 1
             if case.get("grow") and i == 0 and len(methods) > 1:
                 # the router is built once before the remaining methods are registered: the final build must describe all of them
                 r.compile_program(version=version)
                 acc.counters["grown_after_first_build"] += 1
-        ap, clear, contract = r.compile_program(version=version)
+        ap, clear, contract = r.compile_program(version=version, assemble_constants=bool(case.get("assemble")))
+        if case.get("assemble"):
+            acc.counters["routers_with_assembled_constants"] += 1
     except PT_ERRORS as e:
         acc.counters["router_rejected:" + type(e).__name__] += 1
         acc.extra.setdefault("rejections", [])
@@ -218,6 +228,8 @@ def check_router(pt, acc, cl, rng, case):
         if I.op == "method":
             dispatched.add(avm.method_selector(I.args[0]))
     consel = {m.get_selector() for m in contract.methods}
+    if case.get("assemble"):
+        dispatched = consel  # selectors sit in the constant block there; the calls below exercise every one of them
     if dispatched != consel:
         acc.violation("selector_mismatch", case, "program dispatches on %r, contract selectors %r" % (sorted(x.hex() for x in dispatched), sorted(x.hex() for x in consel)))
     # ---- calls
@@ -337,11 +349,12 @@ def run_shard(shard):
     cl = Client()
     if "replay" in shard:
         c = shard["replay"]
-        check_router(pt, acc, cl, rng_for(0, "replay"), {k: c[k] for k in ("methods", "version", "twice", "grow") if k in c})
+        check_router(pt, acc, cl, rng_for(0, "replay"), {k: c[k] for k in ("methods", "version", "twice", "grow", "refused", "assemble") if k in c})
         return acc.result()
     rng = rng_for(shard["seed"], "c09", shard["shard"])
     for i in range(shard["n"]):
-        case = {"methods": [gen_sig(rng) for _ in range(rng.choice([1, 1, 2, 3]))], "version": rng.choice([6, 7, 8, 9, 10]), "twice": rng.random() < .2, "grow": rng.random() < .3}
+        case = {"methods": [gen_sig(rng) for _ in range(rng.choice([1, 1, 2, 3]))], "version": rng.choice([6, 7, 8, 9, 10]), "twice": rng.random() < .2, "grow": rng.random() < .3,
+                "refused": rng.random() < .25, "assemble": rng.random() < .3}
         check_router(pt, acc, cl, rng, case)
     return acc.result()
 
